@@ -264,6 +264,16 @@ def scn_problem(T, case):
             T.prove("C08.dicts.jacobian_is_the_derivative_of_the_entry_with_the_same_sign", T.all([T.same(jac[c], sgn * dv[c]) for c in range(len(free))]))
         else:
             T.prove("C08.dicts.cobyla_entries_carry_no_jacobian", "jac" not in d)
+    # ---- the passed callables describe the point they are GIVEN: evaluate them at a second, distant point right away
+    # (no objective request in between), then again at the first one
+    xg = T.real("second_test_point", (len(free),))
+    # (distant in the sense of the request pool of C07: farther apart than 1e-3 (1 + |x|), so that the optimizer's np.allclose test tells them apart)
+    T.assume(T.all([(abs(xg[i] - xf[i]) > 1e-3 * (1.0 + abs(xf[i]))) & (abs(xg[i] - xf[i]) > 1e-3 * (1.0 + abs(xg[i]))) for i in range(len(free))]))
+    xg_full = [xg[free.index(i)] if i in free else x0[i] for i in range(Nv)]
+    for e, ((grp, idx, val, lo, up, kind), side) in enumerate(want):
+        v2 = Fs[1 + idx](*[xg[i] for i in range(len(free))]) if grp == "nl" else T.total([A[idx, i] * xg_full[i] for i in range(Nv)])
+        T.prove("C08.dicts.value_is_that_of_the_point_passed_in", T.same(cons[e]["fun"](xg)[0], (v2 - lo) if side != "up" else (up - v2)))
+        T.prove("C08.dicts.value_is_that_of_the_point_passed_in", T.same(cons[e]["fun"](xf)[0], (val - lo) if side != "up" else (up - val)))
     # ---- equivalence of the statement
     ok_conf = T.all([feasible(T, val, lo, up) for (_, _, val, lo, up, _) in rows] or [True])
     ok_pass = T.all([(T.same(cons[e]["fun"](xf)[0], 0.0 * xf[0]) if cons[e]["type"] == "eq" else cons[e]["fun"](xf)[0] >= 0) for e in range(len(cons))] or [True])
